@@ -166,4 +166,4 @@ def replay(ctx: Ctx, case):
 
 def run(ctx: Ctx):
     q = ctx.tier == "quick"
-    run_given(ctx, "scool", cases(), check_scool, per_shard(ctx, 900 if q else 20000), batch=50)
+    run_given(ctx, "scool", cases(), check_scool, per_shard(ctx, 900 if q else 48000), batch=50)
